@@ -19,8 +19,8 @@ ID = "C19"
 CASES = {"quick": 640, "thorough": 8000}
 FLOOR = {"quick": 520, "thorough": 6500}
 FLOOR_COUNTERS = {
-    "quick": {"membership_lps": 9000, "height_lps": 14000, "queries_judged": 9000, "relation_fits": 1000, "hulls_with_unselected": 400, "estimators_with_a_past": 500, "non_float64_features": 150, "non_default_tolerance": 120, "configured_by_attribute_assignment": 500, "calls_with_more_than_400000_queries": 6, "caller_buffers_overwritten_after_fit": 200},
-    "thorough": {"membership_lps": 140000, "height_lps": 220000, "queries_judged": 140000, "relation_fits": 14000, "hulls_with_unselected": 5000, "estimators_with_a_past": 7000, "non_float64_features": 2000, "non_default_tolerance": 1600, "configured_by_attribute_assignment": 7000, "calls_with_more_than_400000_queries": 80, "caller_buffers_overwritten_after_fit": 3000},
+    "quick": {"membership_lps": 9000, "height_lps": 14000, "queries_judged": 9000, "relation_fits": 1000, "hulls_with_unselected": 400, "estimators_with_a_past": 500, "non_float64_features": 150, "non_default_tolerance": 120, "configured_by_attribute_assignment": 500, "calls_with_more_than_400000_queries": 6, "caller_buffers_overwritten_after_fit": 200, "rejected_calls_in_the_history": 300, "index_arrays_counting_from_the_end_shared_across_tables": 40},
+    "thorough": {"membership_lps": 140000, "height_lps": 220000, "queries_judged": 140000, "relation_fits": 14000, "hulls_with_unselected": 5000, "estimators_with_a_past": 7000, "non_float64_features": 2000, "non_default_tolerance": 1600, "configured_by_attribute_assignment": 7000, "calls_with_more_than_400000_queries": 80, "caller_buffers_overwritten_after_fit": 3000, "rejected_calls_in_the_history": 4000, "index_arrays_counting_from_the_end_shared_across_tables": 500},
 }
 RULE = (
     "case = samples with 1-3 hull dimensions and 0-3 extra high-dimensional columns placed in any column order (low_dim_idx in "
@@ -75,6 +75,8 @@ def gen(rng, tier, index):
         "xdtype": xdtype,
         "past": bool(rng.random() < 0.4),
         "clobber": bool(rng.random() < 0.5),
+        "reject": bool(rng.random() < 0.4),
+        "low_as_array": bool(rng.random() < 0.3),
         "many_queries": bool(index % 64 == 9),
         "how": gens.pick(rng, ("ctor", "ctor", "setattr", "setattr_after_decoy")),
         "low": low,
@@ -125,7 +127,15 @@ def run(case, j):
         """A fresh hull object, or one with a past: fitted to other data (same columns), asked for distances and
         residuals, then fitted to the data of the case."""
         how = case.get("how", "ctor")
-        if how == "ctor":
+        if case.get("low_as_array") and how == "ctor" and not label:
+            # the hull columns as ONE index array that counts from the end, first used by another hull on a wider table
+            ncol = X.shape[1]
+            shared = np.array([c - ncol for c in low])
+            wide = prng.normal(size=(d + 6, ncol + 2))
+            j.lib("fit:other hull, wider table, same index array", DCH(low_dim_idx=shared, tolerance=T).fit, wide, prng.normal(size=d + 6))
+            mm = DCH(low_dim_idx=shared, tolerance=T)
+            j.note("index_arrays_counting_from_the_end_shared_across_tables")
+        elif how == "ctor":
             mm = DCH(low_dim_idx=list(low), tolerance=T)
         else:
             # the class has no set_params: an existing object is re-configured by assigning its public attributes
@@ -151,6 +161,10 @@ def run(case, j):
     j.lib("fit", m.fit, Xfit, yfit)
     if case.get("clobber"):
         forms.clobber(Xfit, yfit, j=j)  # the caller re-uses its training buffers; the hull keeps what it needs
+    if case.get("reject"):
+        # a failure in the history: refits that Qhull refuses (too few samples, a flat target) leave the fitted hull as it was
+        forms.rejected(j, "refit on too few samples", m.fit, np.asarray(Xin)[: d + 1] * 1.0, np.asarray(y)[: d + 1] + 5.0 * max(1.0, float(np.abs(y).max())))
+        forms.rejected(j, "refit on a constant target", m.fit, np.asarray(Xin) * 1.0, np.full(n, 3.0 * max(1.0, float(np.abs(y).max()))))
     sel = set(int(v) for v in m.selected_idx_)
     ys = max(1.0, float(np.abs(y).max()))
     tol = 1e-7 * ys
@@ -186,7 +200,8 @@ def run(case, j):
             continue
         if not j.close("distance == vertical offset from the hull", ds[i], y[i] - hh, tol, {"sample": i}):
             break
-    if h > 0:
+    neg_idx = bool(case.get("low_as_array") and case.get("how", "ctor") == "ctor")
+    if h > 0 and not neg_idx:  # (hull columns counted from the end also stay among the "high-dimensional" ones: DESIGN 11.5)
         r = np.asarray(j.lib("score_feature_matrix", m.score_feature_matrix, Xin))
         j.ok("residual matrix has one column per extra feature", r.shape == (n, h), r.shape)
         j.ok("selected samples have zero high-dimensional residual", float(np.nanmax(np.abs(r[sorted(sel)]))) <= (1e-9 if xdt != "float32" else 100 * float(np.finfo(np.float32).eps)) * max(1.0, float(np.abs(X).max())), float(np.nanmax(np.abs(r[sorted(sel)]))))
